@@ -12,6 +12,7 @@ struct Passes {
     opdesugar: bool,
     mapcollect: bool,
     extendmap: bool,
+    tryinto: bool,
     renames: Vec<(String, String)>,
     log: Vec<String>,
 }
@@ -270,7 +271,7 @@ impl VisitMut for Passes {
                     }
                 }
             }
-            Expr::MethodCall(m) if m.method == "try_into" && m.args.is_empty() && m.turbofish.is_none() => {
+            Expr::MethodCall(m) if self.tryinto && m.method == "try_into" && m.args.is_empty() && m.turbofish.is_none() => {
                 // R-TRYINTO: the blanket `impl<T, U: TryFrom<T>> TryInto<U> for T` is `U::try_from(self)`
                 let r = &m.receiver;
                 self.log.push(format!("R-TRYINTO line {}", m.method.span().start().line));
@@ -728,6 +729,7 @@ struct Opts {
     opdesugar: bool,
     mapcollect: bool,
     extendmap: bool,
+    tryinto: bool,
     renames: Vec<String>,
     contracts: Vec<String>,
     stubs: Vec<String>,
@@ -743,7 +745,7 @@ struct Opts {
 
 fn parse_args() -> Opts {
     let args: Vec<String> = std::env::args().collect();
-    let mut o = Opts { src: String::new(), opdesugar: false, mapcollect: false, extendmap: true, renames: vec![], contracts: vec![], stubs: vec![],
+    let mut o = Opts { src: String::new(), opdesugar: false, mapcollect: false, extendmap: true, tryinto: true, renames: vec![], contracts: vec![], stubs: vec![],
         items: vec![], impl_filter: None, key_suffix: String::new(), opaque: vec![], log: None, names: vec![], mono: true, label: String::new() };
     let mut i = 1;
     let split = |s: &String| -> Vec<String> { s.split(',').filter(|x| !x.is_empty()).map(|x| x.to_string()).collect() };
@@ -753,6 +755,7 @@ fn parse_args() -> Opts {
             "--opdesugar" => o.opdesugar = true,
             "--mapcollect" => o.mapcollect = true,
             "--noextendmap" => o.extendmap = false,
+            "--notryinto" => o.tryinto = false,
             "--nomono" => o.mono = false,
             "--renames" => { i += 1; o.renames = split(&args[i]); }
             "--contracts" => { i += 1; o.contracts.extend(split(&args[i])); }
@@ -949,7 +952,7 @@ fn main() {
     let file = match syn::parse_file(&src) { Ok(f) => f, Err(e) => { eprintln!("VX-ERROR parse {}: {}", o.src, e); std::process::exit(3) } };
     let renames: Vec<(String, String)> = o.renames.iter().map(|s| (s.to_string(), format!("v_{}", s))).collect();
     let contracts = load_contracts(&o.contracts);
-    let p = Passes { opdesugar: o.opdesugar, mapcollect: o.mapcollect, extendmap: o.extendmap, renames, log: vec![] };
+    let p = Passes { opdesugar: o.opdesugar, mapcollect: o.mapcollect, extendmap: o.extendmap, tryinto: o.tryinto, renames, log: vec![] };
     let mut cx = Ctx { o: &o, p, c: &contracts, out: String::new(), found: vec![], loops: vec![], errors: vec![] };
     let wanted = |n: &str| o.names.iter().any(|x| x == n) || o.stubs.iter().any(|x| x == n);
     for item in file.items.iter() {
